@@ -138,7 +138,8 @@ def main(argv=None):
                     cp = cex.get("params") or {}
                     fx = cp.get("fixture")
                     suffix = ("|layout-variant" if cp.get("vary") else "|" + os.path.basename(fx)) if fx else ""
-                    sigs = ["%s:vc:%s%s" % (hn, f, suffix) for f in mine]
+                    # a whole-run clause (no rule behind '@') seen on a layout variant is identified by the fixture it was drawn from
+                    sigs = ["%s:vc:%s%s" % (hn, f, suffix + ("@" + os.path.basename(fx).replace("_test_input.vhd", "") if (cp.get("vary") and "@" not in f and fx) else "")) for f in mine]
                 for sig in sigs:
                     f = findings.setdefault(sig, {"harness": h, "params": cex.get("params", p), "cexs": [], "count": 0})
                     f["count"] = max(f["count"], res["sig_count"].get(cex["sig"], 1))
